@@ -463,6 +463,12 @@ class Unit:
 
 def _write_shard(unit, idx, pairs):
     path = os.path.join(CORR, '%s_%d_%03d.v' % (unit.name, os.getpid(), idx))
+    if hasattr(unit, 'write_shard'):
+        # proof-style units (e.g. numeric agreement shown by the `interval` tactic) write the whole file themselves;
+        # their parse_output(text, n) -> (n_seen, bad_indices) reads what Coq printed
+        with open(path, 'w') as f:
+            f.write(unit.write_shard(pairs))
+        return path
     with open(path, 'w') as f:
         f.write('From Coq Require Import List ZArith QArith String Bool Arith NArith.\n')
         f.write('From ME Require Import Model.Corr.\n')
@@ -500,6 +506,12 @@ def _run_shards(unit, paths):
                 still.append((i, p, pr))
                 continue
             out = pr.stdout.read()
+            if hasattr(unit, 'parse_output'):
+                try:
+                    results[i] = unit.parse_output(out, pr.returncode)
+                except Exception as e:
+                    results[i] = 'coqc output not understood (rc=%s, %s): %s' % (pr.returncode, e, out[-1500:])
+                continue
             m = _RES.search(out)
             if pr.returncode == 0 and m:
                 lst = m.group(2)
